@@ -72,18 +72,21 @@ Proof.
   - cbn [app chain] in C. destruct C as (_ & _ & _ & C). eapply IH. exact C.
 Qed.
 
-Section RunProofs.
+(* ================================================================ Part 6: drops, switches
+   generic in the invariant LI of the inner LineReader (CachesSysProofs), given that LineReader::drop_line
+   preserves it *)
+
+Section DropsGeneric.
   Variable dated : list N -> option Z.
   Variable bs : N.
   Variable f : file.
   Hypothesis Hbs : 0 < bs.
+  Context {LI : lr_state -> Prop}.
+  Hypothesis LI_drop : forall l e s x, LI l -> LI (lr_drop_line bs (lr_set_ext e l) s x).
 
-  Local Notation sr_inv := (sr_inv dated bs f).
-  Local Notation lr_inv := (lr_inv bs f).
+  Local Notation sr_inv := (@sr_inv dated bs f LI).
   Local Notation is_group := (is_group dated f).
   Local Notation ssl_ok := (ssl_ok bs f).
-
-  (* ================================================================ Part 6: drops, switches *)
 
   Lemma drop_lines_inv lns : forall st, sr_inv st ->
     let st' := fold_left (fun st l => sr_set_lr (lr_drop_line bs (lr_set_ext (sr_held st []) (s_lr st)) l (line_refs st (sl_id l))) st) lns st in
@@ -92,7 +95,7 @@ Section RunProofs.
     induction lns as [|l lns IH]; intros st I; cbn [fold_left]; [auto|].
     set (st1 := sr_set_lr _ st).
     assert (I1 : sr_inv st1).
-    { subst st1. apply sr_inv_set_lr; [exact I|]. apply lr_drop_line_inv. apply lr_set_ext_inv. apply (si_lr _ _ _ _ I). }
+    { subst st1. apply sr_inv_set_lr; [exact I|]. apply LI_drop. apply (si_lr _ _ _ _ I). }
     destruct (IH st1 I1) as (A & B & C & D). cbv zeta in *. split; [exact A|]. rewrite B, C, D. auto.
   Qed.
 
@@ -181,7 +184,7 @@ Section RunProofs.
   Lemma sr_lru_disable_inv st : sr_inv st -> sr_inv (sr_lru_disable st).
   Proof. intros [J1 J2 J3 J4 J5]. split; cbn; auto; intros; discriminate. Qed.
 
-  (* ================================================================ Part 7: the stage driver *)
+  (* ================================================================ Part 7: the stage driver (invariants) *)
 
   Definition rinv (st : sr_state) : Prop := sr_inv st /\ asc (s_syslines st).
 
@@ -190,15 +193,18 @@ Section RunProofs.
     forall a b v, In (a, b, v) (s_range st) -> alookup v (s_syslines st) = None -> b <= fo.
 
   Lemma dangling_mono st fo fo' : dangling_behind st fo -> fo <= fo' -> dangling_behind st fo'.
-  Proof. intros D L a b v I1 I2. specialize (D a b v I1 I2). lia. Qed.
+  Proof using. clear Hbs LI_drop. intros D L a b v I1 I2. specialize (D a b v I1 I2). lia. Qed.
 
-  Lemma find_step st fo st' r p : rinv st -> c_find_sysline dated bs f st fo = (st', r, p) ->
-    rinv st' /\ sres_ok dated bs f st fo r /\ (dangling_behind st fo -> r <> Panic /\ dangling_behind st' fo).
+  (* what a find_sysline call that answered as the spec says (sres_ok) and changed the stored syslines as
+     sys_step says does to the dropped ranges *)
+  Lemma find_step_core st fo st' r : rinv st -> sr_inv st' -> sres_ok dated bs f st fo r ->
+    sys_step dated bs f st st' r ->
+    rinv st' /\ (dangling_behind st fo -> r <> Panic /\ dangling_behind st' fo).
   Proof.
-    intros [I AS] H. destruct (c_find_sysline_ok dated bs f Hbs _ _ _ _ _ I H) as (I' & R & ST & _).
+    intros [I AS] I' R ST.
     assert (AS' : asc (s_syslines st')).
     { destruct ST as [[-> _]|(n & s & b & g & _ & _ & _ & _ & -> & _)]; [exact AS|apply asc_ainsert; exact AS]. }
-    split; [split; assumption|]. split; [exact R|]. intro D. split.
+    split; [split; assumption|]. intro D. split.
     - intro E. subst r. cbn in R. destruct R as (v & RG & LK).
       apply range_get_Some in RG as (a & b & IN & A1 & A2). specialize (D _ _ _ IN LK). lia.
     - destruct ST as [[E1 E2]|(n & s & b & g & _ & G & OK & _ & E1 & E2)].
@@ -242,6 +248,38 @@ Section RunProofs.
     pose proof (is_group_unique dated f _ _ _ G' G2). subst g2.
     destruct (N.lt_ge_cases (v + glen g' - 1) pb) as [Q|Q]; [lia|].
     pose proof (div_mono _ _ bs Hbs Q). lia.
+  Qed.
+
+End DropsGeneric.
+
+Section RunProofs.
+  Variable dated : list N -> option Z.
+  Variable bs : N.
+  Variable f : file.
+  Hypothesis Hbs : 0 < bs.
+
+  Local Notation lr_inv := (lr_inv bs f).
+  Local Notation sr_inv := (@sr_inv dated bs f lr_inv).
+  Local Notation is_group := (is_group dated f).
+  Local Notation ssl_ok := (ssl_ok bs f).
+  Local Notation rinv := (@rinv dated bs f lr_inv).
+
+  Lemma lr_inv_drop : forall l e s x, lr_inv l -> lr_inv (lr_drop_line bs (lr_set_ext e l) s x).
+  Proof. intros l e s x I. apply lr_drop_line_inv. apply lr_set_ext_inv. exact I. Qed.
+
+  Local Notation c_drop_sysline_ok := (c_drop_sysline_ok dated bs f lr_inv_drop).
+  Local Notation c_drop_sysline_inv := (c_drop_sysline_inv dated bs f lr_inv_drop).
+  Local Notation c_drop_data_ok := (c_drop_data_ok dated bs f lr_inv_drop).
+  Local Notation drop_try_ok := (drop_try_ok dated bs f Hbs lr_inv_drop).
+  Local Notation sr_lru_enable_inv := (sr_lru_enable_inv dated bs f).
+  Local Notation sr_lru_disable_inv := (sr_lru_disable_inv dated bs f).
+  Local Notation ssl_bo := (ssl_bo bs f Hbs).
+
+  Lemma find_step st fo st' r p : rinv st -> c_find_sysline dated bs f st fo = (st', r, p) ->
+    rinv st' /\ sres_ok dated bs f st fo r /\ (dangling_behind st fo -> r <> Panic /\ dangling_behind st' fo).
+  Proof.
+    intros RI H. destruct (c_find_sysline_ok dated bs f Hbs _ _ _ _ _ (proj1 RI) H) as (I' & R & ST & _).
+    destruct (find_step_core dated bs f Hbs _ _ _ _ RI I' R ST) as (A & B). auto.
   Qed.
 
   (* the groups still to be emitted, the first of which begins at o *)
